@@ -22,6 +22,7 @@ LEVEL_TEXT = {
     "C16": ("exploration", "Exhaustive differential test against std::vector over all pairs of small contents x capacity pairs x four element types for ==, !=, <, <=, >, >= and <=>, with consistency laws, in four builds (g++/clang++ x C++17/C++20) whose verdict tables are cross-checked; non-member erase/erase_if/swap/accessors; rapidcheck contents beyond the bound.", "§4 C16"),
     "C18": ("fault_enumeration", "Static: generated TUs tabulate noexcept(...) for every documented operation over {nothrow/throwing move ctor, move assign, swap} x N x source capacity relation x allocator traits x standards and compare with independently coded README conditions; iterator/nested-type facts. Run-time: every fault point of every generated (state, operation) is injected; a std::terminate is a violation; operations declared noexcept must reach no potentially-throwing point.", "§4 C18"),
     "C19": ("exploration", "Exhaustive configuration grid (3408 points per ideal size): sizeof/alignof/default_buffer_size of real instantiations compared with the property's own statement (largest count fitting 64 bytes, else 1; N=0 stateless = pointer + 2 size_type; alignment), evaluated independently in Python.", "§4 C19"),
+    "C08": ("exploration", "Differential between constant evaluation and run time: rapidcheck-generated operation programs are embedded in generated translation units, `constexpr auto ct = run(prog)` must be accepted by g++ and clang++ (whose evaluators reject UB, out-of-lifetime access and unreleased allocations) and must equal the run-time result (ASan+UBSan) of the same function on the same bytes; rejected programs are bisected and delta-debugged.", "§4 C08"),
 }
 
 
@@ -65,6 +66,7 @@ TECHNIQUE = {
     "C05": "property-based fault injection: exhaustive single-fault enumeration per generated case, snapshot oracle",
     "C06": "property-based fault injection: exhaustive single and paired faults per generated case, validity oracle",
     "C07": "stateful model-based property testing over allocator propagation configurations",
+    "C08": "generated-program differential: compile-time (constexpr) evaluation vs run-time execution under two compilers",
     "C09": "stateful property testing with address/event oracles for buffer stealing",
     "C10": "stateful property testing with capacity/data stability and per-address event oracles",
     "C11": "metamorphic property testing (aliasing call == copy-then-call)",
@@ -84,6 +86,7 @@ ENGINES = [
     {"name": "cmp", "path": "harness/cmp_main.cpp", "serves_properties": ["C16"], "kind_free_text": "comparison / non-member differential against std::vector, 4 toolchain builds"},
     {"name": "grid", "path": "vlib/grid.py (generates translation units)", "serves_properties": ["C18", "C19"], "kind_free_text": "generated TUs tabulating compile-time facts over configuration grids, oracle in Python"},
     {"name": "conv", "path": "harness/conv_main.cpp, harness/archetypes.hpp, vlib/conv.py", "serves_properties": ["C13"], "kind_free_text": "converting-input differential against static_cast / std::vector and archetype compile probes"},
+    {"name": "cx", "path": "harness/cx_interp.hpp, harness/cx_emit.cpp, vlib/cxeng.py", "serves_properties": ["C08"], "kind_free_text": "constexpr interpreter; generated TUs compiled by g++ and clang++, compile-time vs run-time digests"},
     {"name": "fault", "path": "harness/hist_main.cpp (fault mode)", "serves_properties": ["C05", "C06"],
      "kind_free_text": "prefix + operation under test, every fault point enumerated"},
 ]
